@@ -557,14 +557,15 @@ PROPS["C03"] = {
 
 PROPS["C20"] = {
     "title": "Core queries are total on finite input",
-    "props_modules": ["C20", "C20Roots"],
+    "props_modules": ["C20", "C20Roots", "C20Clip"],
     "gen_modules": ["Consts", "Basis", "Section", "Lines", "FatLine", "CurveLine", "CurveBounds", "Walk", "Fit", "Nearest", "Length", "PointInPath", "Normal", "Total", "Roots"],
     "corr_n": (24000, 300000),
     "search_n": (1000, 100000),
     "technique": "Lean 4 theorems 'finite in, finite out' about definitions translated from the Rust source on every run, instantiated at XQ (exact rationals with the IEEE-754 rules for "
                  "signed zeros, x/0, 0/0, inf-inf, 0*inf, sqrt of negatives, unordered NaN comparisons), work-bound theorems for the translated loops + class-exact correspondence of the same "
                  "instance and of the Float mirror with the real code on degenerate inputs + degenerate catalogue x every core operation on the real code (panic / hang / non-finite)",
-    "level_text": "Partial. PROVED for ALL finite inputs, degenerate ones included (coincident control points, point lines, parameters 0 and 1, empty and reversed sections, zero and negative "
+    "level_text": "Partial. line_clip_to_bounds_fin (Props/C20Clip, the function generated since session 4): a returned segment is finite for every finite line and box - edge/delta is only reached after delta == 0.0 answered false "
+                  "(foldlRet_inv / foldlRet_inr: invariant and return-value lemmas for a for-loop with state that can return). " "PROVED for ALL finite inputs, degenerate ones included (coincident control points, point lines, parameters 0 and 1, empty and reversed sections, zero and negative "
                   "distances and tolerances): every number returned is finite - every division the code reaches has a non-zero divisor thanks to its guard, and every non-finite intermediate value "
                   "the code does produce is discarded by a comparison before it reaches the result - for: basis / de_casteljau2-4 / point_at_pos / subdivide / reverse / derivative / coefficients; "
                   "CurveSection new, t_for_t, subsection, original_curve_t_values, start/end/point_at_pos and control_points (repaired guard t_c >= 1); line_coefficients_2d_unnormalized and "
